@@ -95,6 +95,7 @@ type Ctx struct {
 	viaStack  []string
 	clk0      *Term
 	curFrame  *frame
+	bmc       int // >0: bounded unrolling mode (counterexample search only)
 	caseTag   string
 	steps     int
 	splitting bool
